@@ -107,7 +107,7 @@ def keyLt : List KeyPart → List KeyPart → Bool
 def keyOf (sortList : List (Str × Bool)) (i : Issue) : List KeyPart :=
   sortList.map fun (name, isInt) =>
     match i.ctx.find? (·.1 == name) with
-    | some (_, .num v) => if isInt then .n v else .s []
+    | some (_, .num v) => if isInt then .n v else .s (toString v).toList   -- `str(d.get(key, ""))` (fix d7db8b2)
     | some (_, .str v) => if isInt then .n (-1) else .s v
     | some (_, .ref v) => if isInt then .n (-1) else .s v
     | some (_, .list _) => if isInt then .n (-1) else .s []
